@@ -27,6 +27,8 @@ struct Stream
   std::string closeReason;
   bool hasInvalidText = false; // the last message is a text message that is not UTF-8
   std::string invalidPayload;
+  bool hasOversized = false;   // the last message exceeds the endpoint's configured maximum by one byte
+  std::string oversizedPayload;
   // offset just behind the first frame that makes the receiving endpoint start closing (the
   // final frame of the invalid text message or the close frame); npos if there is none
   std::size_t triggerEnd = std::string::npos;
@@ -274,6 +276,50 @@ inline Stream genStream(pbt::Src &src, const GenOpts &go)
     drawKey(src, f, go.masked);
     s.add(f);
     if (s.triggerEnd == std::string::npos) s.triggerEnd = s.wire.size();
+  }
+  return s;
+}
+
+/// A stream around a configured maximum N: a small message, then a message of exactly N + delta
+/// payload bytes (single frame or fragmented, controls between the fragments), then - if it fits -
+/// another small message. delta <= 0: everything must be delivered; delta > 0: the message must
+/// be refused (the endpoint starts closing, nothing follows).
+inline Stream genBoundaryStream(pbt::Src &src, bool masked, std::size_t N, int delta)
+{
+  Stream s;
+  GenOpts go;
+  go.masked = masked;
+  Msg pre{true, "pre"};
+  s.expect.push_back(pre);
+  addMessage(src, s, go, pre);
+  Msg big;
+  big.text = src.coin();
+  const std::size_t L = N + static_cast<std::size_t>(delta + 1) - 1;
+  if (big.text) big.payload = genUtf8(src, L);
+  else
+  {
+    big.payload.assign(L, '\0');
+    std::uint32_t x = static_cast<std::uint32_t>(src.range(1, 0x7fffffff));
+    for (auto &ch : big.payload)
+    {
+      x = x * 1664525u + 1013904223u;
+      ch = static_cast<char>(x >> 24);
+    }
+  }
+  const std::size_t bigStart = s.wire.size();
+  addMessage(src, s, go, big);
+  if (delta <= 0)
+  {
+    s.expect.push_back(big);
+    Msg post{false, std::string("post\x00\xff", 6)};
+    s.expect.push_back(post);
+    addMessage(src, s, go, post);
+  }
+  else
+  {
+    s.hasOversized = true;
+    s.oversizedPayload = big.payload;
+    s.triggerEnd = bigStart; // the refusal may come as early as the first header of the message
   }
   return s;
 }
